@@ -248,7 +248,8 @@ func vfC14Run(run *vfkit.Run, cs *vfC14Case) {
 }
 
 func vfGenLocal(r *rand.Rand) string {
-	atoms := []string{"a", "b", "Z", "9", ".", "-", "_", "&", "+", "%", "é", "中", "\U0001F600", "\x00", "\x01", "=", "!", "~", "\\", "{", "ß", "user"}
+	atoms := []string{"a", "b", "Z", "9", ".", "-", "_", "&", "+", "%", "é", "中", "\U0001F600", "\x00", "\x01", "=", "!", "~", "\\", "{", "ß", "user",
+		"\u00a0", "\u200b", "\ufeff", "\u00ad", "\u3000", "\u2060"} // what SASLprep would map to a space or to nothing: the payload is the bytes as given
 	n := 1 + r.Intn(6)
 	var sb strings.Builder
 	for i := 0; i < n; i++ {
@@ -283,7 +284,8 @@ func TestVf_C14(t *testing.T) {
 		return
 	}
 	n := vfkit.Pick(600, 20000)
-	all := []string{"PLAIN", "X-OAUTH2", "SCRAM-SHA-1", "DIGEST-MD5", "EXTERNAL", "ANONYMOUS", "X-VF-MADEUP", "plain", "PLAIN "}
+	all := []string{"PLAIN", "X-OAUTH2", "SCRAM-SHA-1", "DIGEST-MD5", "EXTERNAL", "ANONYMOUS", "X-VF-MADEUP", "plain", "PLAIN ",
+		"X-PLAIN-TOKEN", "PLAIN-OVER-TLS", "X-OAUTH2-V2", "PLAI", "OAUTH2", "SCRAM-SHA-1-PLUS"} // names that contain, or are contained in, a supported one
 	var wg sync.WaitGroup
 	workers := 16
 	for wk := 0; wk < workers; wk++ {
